@@ -14,6 +14,26 @@ CLAIMED = {
         "Trusted: the odometer reference model (cross-checked at start-up against integer closed-form JDN formulas) and f64 determinism on one machine. Steps whose result leaves 0001..9999 are outside the claim.",
         "explicit-state enumeration of all dates x step alphabet against a civil-calendar odometer model",
         "DESIGN.md 2/C01"),
+    "C02": (
+        "Explicit-state exploration of the real conversion code: (a) every civil date (thorough: all 3,652,061; quick: the fixed windows + one seed-chosen window) with the transition 'next civil day' checked against the successor relation on lunar dates in model order, and the round trip civil->lunar->civil; (b) every lunation of lunar years 0..9999 x candidate days 0..31 for acceptance and lunar->civil->lunar, every non-existent leap month refused; (c) all ordered pairs from a lunation and the next two x days {1,2,15,last}^2 for before/after vs chronological order; LunarDay.next(n) on first/last days. Complete enumeration finds skipped/duplicated/mis-labelled days that no sample of conversions can.",
+        "Trusted: civil odometer; the lunation table read through the public API and laid out in model order (the table itself is judged by C03/C04/C05). Known findings: the reform-era table defects (AD 8-9, 23-25, 239-240) listed in known_findings.json by exact input.",
+        "explicit-state enumeration of all civil dates / all lunar dates with successor-relation and round-trip oracles",
+        "DESIGN.md 2/C02"),
+    "C03": (
+        "Explicit-state exploration over the complete chain of lunations of lunar years 0..9999 (123,684 states): every adjacent pair must abut (first day + length = next first day), lengths 29/30, memo answer = cache-free constructor, next(n) = chain position + n for a step alphabet (thorough: -14..14, +-25, +-100, +-1237), and per year the month list / count / leap position / day count / new-year distance. Both tiers enumerate the whole chain; one corrupted packed table character shifts one year and is seen as a gap/overlap.",
+        "Trusted: model order of a lunar year (1..12, leap directly after its twin). Known findings: 4 boundary breaks + one 28-day month + 4 year spans of the AD 9-23 / 237-239 reform periods.",
+        "explicit-state enumeration of the whole lunation chain with tiling invariants and step-alphabet conformance",
+        "DESIGN.md 2/C03"),
+    "C04": (
+        "Exhaustive check of every winter-solstice-to-winter-solstice span starting in 27..9997 except 237-239 (thorough: all 9,968; quick: windows): the lunation containing the library's own calendar-making solstice day must be month 11; 12 lunations => no leap, 13 => the first without a major-term day is the leap month and repeats the previous number; every lunation's label is compared with the rule's label and with get_leap_month / get_month_with_leap.",
+        "Relational oracle: the library's own new-moon days and term days (judged astronomically in C05); the rule is the classical no-major-term rule. Years before 27 and the sui starting 237-239 are outside the property.",
+        "exhaustive enumeration of all sui with a rule-derived labelling compared to the implementation's labels",
+        "DESIGN.md 2/C04"),
+    "C10": (
+        "Three explorers. (1) Explicit-state BFS over the real process-wide memo: state = canonical memo snapshot + poison flags (read through the verif hooks), transition = one request of an alphabet built to collide under every plausible keying plus refused requests; run to a fixpoint on the core alphabet (quick 256 states / thorough 4096) and to depth 2/3 on the full alphabet incl. walkers and the provider locks; every answer must equal the cold answer and the cache-free constructor. (2) Value-level lazy fields: every sequence of <= 3 observers on LunarDay/LunarHour values vs a fresh value. (3) loom (DPOR) over the repository's own source files compiled against loom's Mutex/lazy_static: 2-4 threads x 1-3 requests on colliding keys, nested provider->memo locks and Err-refusals, preemption bounds 0,1,2,(3), unbounded for the small harnesses; every complete schedule's answers must equal the cold answers; loom reports deadlocks.",
+        "The '16 OS threads' clause is replaced by exhaustive loom schedules of small harnesses (a free-running stress run would be sampling). loom cannot unwind through a held loom MutexGuard, so panicking refusals are decided by the sequential explorer on std's Mutex (which has poisoning); data races on the !Sync lazy fields are excluded by the compiler (no unsafe).",
+        "explicit-state BFS over memo states against cold answers + loom bounded-preemption schedule exploration of the real source",
+        "DESIGN.md 2/C10"),
 }
 
 NOT_YET = "check not built yet in this round (planned in DESIGN.md section 2); not claimed until it has run clean and caught a seeded change"
